@@ -1,8 +1,8 @@
 """C34 — ordered sets behave as insertion-ordered sets and sequences.
 
 Two parts:
- * deductive (pyvc): the methods whose bodies are loops/comprehensions over the backing dict, with the dict
-   modelled as an ordered map (member set + rank) and `Iterable` arguments as possibly one-shot sequences;
+ * deductive (pyvc): the methods that work on the backing dict directly, with the dict modelled as an ordered map
+   (member set + insertion rank; iteration follows the rank) and `Iterable` arguments as re-iterable sequences;
  * bounded stand-in (labelled bounded, never counted as proved): the real classes against the reference model
    "duplicate-free list" over an exhaustive small scope, for the methods that go through itertools /
    varargs / self.__class__ which the verifier's subset does not admit.
@@ -18,14 +18,127 @@ for_property("C34")
 OS = "pynguin.utils.orderedset"
 
 META = {
-    "level": "other",
-    "explanation": "bounded contract check of the real OrderedSet/FrozenOrderedSet against the reference model "
-                   "(duplicate-free list) over an exhaustive small scope; see bounded_parts for the bound",
-    "rule": "one case = (initial ordered set over {0,1,2}, operation, argument value, argument kind); non-trivial = the "
-            "argument or the set is non-empty",
+    "level": "proof",
+    "explanation": "deductive proofs of the methods that work on the backing dict (dict = finite map + insertion rank); the other "
+                   "operations and one-shot / self-aliasing arguments by the bounded contract check against the reference model "
+                   "(duplicate-free list) over an exhaustive small scope, see bounded_parts",
+    "rule": "obligations: one per contract clause / loop invariant / raise site; bounded part: one case = (initial ordered set over "
+            "{0,1,2}, operation, argument value, argument kind); non-trivial = the argument or the set is non-empty",
     "trusted": ["the reference model in contracts/c34.py (25 lines)"],
 }
 
+
+# ---------------------------------------------------------------------------------------------------------------
+# deductive part: the backing dict as an ordered map (member set + rank; iteration follows the rank)
+from pyvc.contracts import assumption, value_type  # noqa: E402
+
+value_type("Elem")
+klass(f"{OS}:_AbstractOrderedSet", fields={"_items": "odict[Elem,None]"})
+klass(f"{OS}:OrderedSet", fields={}, bases=["_AbstractOrderedSet"])
+assumption("A-ODICT: a dict is a finite map with an insertion rank: storing a new key ranks it above every existing key, storing an "
+           "existing key, deleting another key and filtering by a dict comprehension over the dict itself keep the relative ranks; "
+           "iteration (keys(), iter, list, enumerate) visits every key exactly once in increasing rank")
+assumption("elements are hashable values whose == and hash agree with identity of the abstract value (type Elem)")
+
+contract(f"{OS}:_AbstractOrderedSet.__len__", sig={"self": "_AbstractOrderedSet"}, returns="int",
+         ensures=["result == len(self._items)"])
+contract(f"{OS}:_AbstractOrderedSet.__contains__", sig={"self": "_AbstractOrderedSet", "key": "Elem"}, returns="bool",
+         ensures=["result == (key in self._items)"])
+contract(f"{OS}:_AbstractOrderedSet.__getitem__", sig={"self": "_AbstractOrderedSet", "index": "int"}, returns="Elem",
+         raises={"IndexError": "not (-len(self._items) <= index < len(self._items))"},
+         ensures=["-len(self._items) <= index < len(self._items)",
+                  "result is list(self._items)[index if index >= 0 else index + len(self._items)]"])
+loop(f"{OS}:_AbstractOrderedSet.__getitem__", 0, invariant=["not (0 <= index < _i)"])
+
+ORDER_KEPT = ("all(all(implies(a in self._items and b in self._items, (rank(self._items, a) < rank(self._items, b)) == "
+              "(rank(old(self._items), a) < rank(old(self._items), b))) for b in keys(old(self._items))) for a in keys(old(self._items)))")
+contract(f"{OS}:OrderedSet.add", sig={"self": "OrderedSet", "value": "Elem"}, modifies=["self._items"],
+         ensures=["keys(self._items) == keys(old(self._items)) | {value}", ORDER_KEPT,
+                  "implies(value not in old(self._items), all(rank(self._items, a) < rank(self._items, value) for a in keys(old(self._items))))"])
+contract(f"{OS}:OrderedSet.discard", sig={"self": "OrderedSet", "value": "Elem"}, modifies=["self._items"],
+         ensures=["keys(self._items) == keys(old(self._items)) - {value}", ORDER_KEPT])
+
+contract(f"{OS}:OrderedSet.clear", sig={"self": "OrderedSet"}, modifies=["self._items"], ensures=["len(self._items) == 0", "keys(self._items) == set()"])
+
+# update: old members keep their order and precede the new ones; new members are ordered by their first occurrence
+OLD_FIRST = ("all(all(implies(a in self._items and b not in old(self._items), rank(self._items, a) < rank(self._items, b)) "
+             "for b in keys(self._items)) for a in keys(old(self._items)))")
+
+
+def _first_occ(seq, upto, new_if, also_p=False):
+    gp = f" and {new_if.format(x=seq + '[p]')}" if also_p else ""
+    return (f"all(all(implies(p < q and {seq}[p] != {seq}[q] and {new_if.format(x=seq + '[q]')}{gp} and all({seq}[j] != {seq}[q] for j in range(q)), "
+            f"rank(self._items, {seq}[p]) < rank(self._items, {seq}[q])) for p in range({upto})) for q in range({upto}))")
+
+
+def _grown_by(seq, upto):
+    return [f"all(k in self._items for k in keys(old(self._items)))",
+            f"all({seq}[j] in self._items for j in range({upto}))",
+            f"all(k in old(self._items) or any({seq}[j] == k for j in range({upto})) for k in keys(self._items))"]
+
+
+contract(f"{OS}:OrderedSet.update", sig={"self": "OrderedSet", "iterable": "list[Elem]"}, modifies=["self._items"],
+         ensures=_grown_by("iterable", "len(iterable)") + [ORDER_KEPT, OLD_FIRST,
+                                                            _first_occ("iterable", "len(iterable)", "{x} not in old(self._items)")])
+loop(f"{OS}:OrderedSet.update", 0,
+     invariant=_grown_by("iterable", "_i") + [ORDER_KEPT, OLD_FIRST, _first_occ("iterable", "_i", "{x} not in old(self._items)")])
+
+contract(f"{OS}:OrderedSet.intersection_update", sig={"self": "OrderedSet", "other": "list[Elem]"}, modifies=["self._items"],
+         ensures=["all((k in self._items) == (k in other) for k in keys(old(self._items)))",
+                  "all(k in old(self._items) for k in keys(self._items))", ORDER_KEPT])
+contract(f"{OS}:OrderedSet.difference_update", sig={"self": "OrderedSet", "others": "list[list[Elem]]"}, modifies=["self._items"],
+         type_map={"set[T]": "set[Elem]"},
+         ensures=["all((k in self._items) == (not any(k in others[j] for j in range(len(others)))) for k in keys(old(self._items)))",
+                  "all(k in old(self._items) for k in keys(self._items))", ORDER_KEPT])
+
+loop(f"{OS}:OrderedSet.difference_update", 0,
+     invariant=["all(all(others[j][m] in items_to_remove for m in range(len(others[j]))) for j in range(_i))",
+                "all(any(k in others[j] for j in range(_i)) for k in items_to_remove)"])
+
+# symmetric_difference_update: members of exactly one side; kept old members first (in their order), then the new ones by first occurrence
+contract(f"{OS}:_AbstractOrderedSet.__init__", sig={"self": "_AbstractOrderedSet", "iterable": "Optional[list[Elem]]"},
+         modifies=["self._items"],
+         ensures=["implies(iterable is None, len(self._items) == 0)",
+                  "implies(iterable is not None, all(iterable[j] in self._items for j in range(len(iterable))))",
+                  "implies(iterable is not None, all(any(iterable[j] == k for j in range(len(iterable))) for k in keys(self._items)))",
+                  "implies(iterable is not None, all(all(implies(p < q and iterable[p] != iterable[q] and all(iterable[j] != iterable[q] for j in range(q)), "
+                  "rank(self._items, iterable[p]) < rank(self._items, iterable[q])) for p in range(len(iterable))) for q in range(len(iterable))))"])
+# symmetric_difference_update: the list of new elements is a filtered copy of `other` (order-preserving); the invariants restate that
+contract(f"{OS}:OrderedSet.symmetric_difference_update", sig={"self": "OrderedSet", "other": "list[Elem]"}, modifies=["self._items"],
+         type_map={"set[T]": "set[Elem]"},
+         ensures=["all((k in self._items) == (k not in other) for k in keys(old(self._items)))",
+                  "all(implies(other[j] not in old(self._items), other[j] in self._items) for j in range(len(other)))",
+                  "all(k in old(self._items) or k in other for k in keys(self._items))",
+                  ORDER_KEPT, OLD_FIRST, _first_occ("other", "len(other)", "{x} not in old(self._items)", also_p=True)])
+loop(f"{OS}:OrderedSet.symmetric_difference_update", 0,
+     invariant=["all((k in self._items) == (k not in other) for k in keys(old(self._items)))",
+                "all(items_to_add[j] in self._items for j in range(_i))",
+                "all(k in old(self._items) or any(items_to_add[j] == k for j in range(_i)) for k in keys(self._items))",
+                ORDER_KEPT, OLD_FIRST, _first_occ("items_to_add", "_i", "True")])
+
+# native replay of refuted obligations: real OrderedSet objects over small ints
+from pyvc.enumerate import sampler  # noqa: E402
+from pyvc.replay import NATIVE_HELPERS  # noqa: E402
+
+NATIVE_HELPERS["rank"] = lambda d, k: list(d).index(k)
+
+
+@sampler("opaque:Elem")
+def _s_elem(sc):
+    return sc.rnd.choice([0, 1, 2, 3])
+
+
+def _s_oset(sc, cls):
+    import pynguin.utils.orderedset as osm
+    xs = [0, 1, 2, 3]
+    sc.rnd.shuffle(xs)
+    return ("$py", osm.OrderedSet(xs[:sc.rnd.randint(0, 4)]))
+
+
+sampler("OrderedSet")(_s_oset)
+sampler("_AbstractOrderedSet")(_s_oset)
+NATIVE = {f"{OS}:OrderedSet.difference_update": lambda self, others: type(self).difference_update(self, *others)}
+SCOPE = {f"{OS}:OrderedSet.difference_update": {"maxlen": 3}}
 
 # ---------------------------------------------------------------------------------------------------------------
 # reference model: a duplicate-free list in first-insertion order
@@ -217,6 +330,23 @@ def _check(part: Part, tier, seed):
         s.clear()
         if list(s) != []:
             fail("clear", "clear", state=st)
+        # the operations that take several iterables, with two arguments of mixed kinds
+        for a1, a2 in itertools.product([[], [0], [1, 3], [2, 0]], [[], [1], [3, 0], [2, 2]]):
+            for k1, k2 in (("list", "iterator"), ("generator", "set"), ("OrderedSet", "tuple")):
+                for name, model in (("union", m_union), ("intersection", m_inter), ("difference", m_diff), ("difference_update", m_diff)):
+                    part.case(True)
+                    s = OrderedSet(st)
+                    try:
+                        got = getattr(s, name)(mk_arg(k1, a1, OrderedSet), mk_arg(k2, a2, OrderedSet))
+                        got = list(s) if name == "difference_update" else list(got)
+                    except Exception as e:  # noqa: BLE001
+                        fail(f"{name} with two iterables", f"{name}-two-raises", state=st, args=[a1, a2], kinds=[k1, k2],
+                             exception=f"{type(e).__name__}: {e}")
+                        continue
+                    want = model(st, *[m_from(list(set(a_))) if k_ == "set" else m_from(a_) for k_, a_ in ((k1, a1), (k2, a2))])   # (a set iterates in its own order)
+                    if got != want:
+                        fail(f"{name} with two iterables: the set-theoretic answer in first-insertion order", f"{name}-two",
+                             state=st, args=[a1, a2], kinds=[k1, k2], expected=want, got=got)
 
     # ---- short histories of mutating operations against the model
     hist_ops = [("add", [0]), ("add", [3]), ("discard", [1]), ("update", [2, 3, 0]), ("difference_update", [0, 3]),
